@@ -80,6 +80,15 @@ fn main() {
                 println!("{:28} {}", k, w);
             }
         }
+        "corpus" => {
+            // development aid: print the programs of one corpus family
+            let fam = args.get(2).cloned().unwrap_or_default();
+            for (t, p) in props::corpus_tagged() {
+                if t.starts_with(&fam) {
+                    println!("{}", p);
+                }
+            }
+        }
         "shapes" => {
             if std::env::var("SYMX_NOISY_PANICS").is_err() {
                 engine::install_panic_hook();
